@@ -909,7 +909,10 @@ theorem gl_recsOk_of_nonUserKept {s : St} {H : Heap} (hr : RecsOk s) (hk : NonUs
 (from the branch theorem), the fenceposts / record chunks are kept, no new fencepost -/
 theorem gl_sinv_of_kept {s : St} (hi : SInv s) {H : Heap} (w' : WFS { s with h := H })
     (hk : NonUserKept s H.ents) (hfo : FencesOld s.h.ents H.ents) : SInv { s with h := H } :=
-  ⟨w', gl_recsOk_of_nonUserKept hi.recs hk, gl_fenceOk_of_kept hi w' hk hfo, gl_tailOk_of_kept hi w' hk⟩
+  ⟨w', gl_recsOk_of_nonUserKept hi.recs hk, gl_fenceOk_of_kept hi w' hk hfo, gl_tailOk_of_kept hi w' hk,
+    fun g hg e he hb h8 => by
+      obtain ⟨y, hy, hya, hy8⟩ := hfo e he h8
+      exact hi.head g hg y hy (by omega) hy8⟩
 
 /-! ### `FencesOld` from the three deltas -/
 
@@ -1159,10 +1162,21 @@ theorem gl_fenceOk_of_check {s : St} (h : gl_fenceOkB s = true) : FenceOk s := b
   · exact Or.inl h
   · exact Or.inr h
 
+def gl_headOkB (s : St) : Bool :=
+  s.segs.all fun g => s.h.ents.all fun e => !(decide (e.addr = g.base)) || !(decide (e.size = 8))
+
+theorem gl_headOk_of_check {s : St} (h : gl_headOkB s = true) : HeadOk s := by
+  intro g hg e he hb h8
+  unfold gl_headOkB at h
+  simp only [List.all_eq_true, Bool.or_eq_true, Bool.not_eq_true', decide_eq_false_iff_not] at h
+  rcases h g hg e he with h | h
+  · exact h hb
+  · exact h h8
+
 theorem gl_inv_of_check {hs : Hist} (h1 : wfb hs = true) (h2 : gl_recsOkB hs.st = true)
-    (h3 : gl_fenceOkB hs.st = true) (h4 : gl_tailOkB hs.st = true) : Inv hs :=
-  ⟨⟨((wf_iff_wfs hs).1 h1).1, gl_recsOk_of_check h2, gl_fenceOk_of_check h3, gl_tailOk_of_check h4⟩,
-    ((wf_iff_wfs hs).1 h1).2⟩
+    (h3 : gl_fenceOkB hs.st = true) (h4 : gl_tailOkB hs.st = true) (h5 : gl_headOkB hs.st = true) : Inv hs :=
+  ⟨⟨((wf_iff_wfs hs).1 h1).1, gl_recsOk_of_check h2, gl_fenceOk_of_check h3, gl_tailOk_of_check h4,
+    gl_headOk_of_check h5⟩, ((wf_iff_wfs hs).1 h1).2⟩
 
 /-- two segments (the second `mmap` answer is not adjacent to the first segment, so `add_segment` pushed a
 segment record and three fenceposts into the old segment), two live blocks, one freed chunk -/
@@ -1181,6 +1195,6 @@ example : Inv glState ∧ glState.st.segs.length = 2 ∧
     (glState.st.h.ents.filter fun e => e.size = 8).length = 3 ∧
     (glState.st.h.ents.filter fun e => e.cin && isRecord glState.st.segs e).length = 1 ∧
     branchIs glState.st.h 48 "dv-split" = true :=
-  ⟨gl_inv_of_check (by decide) (by decide) (by decide) (by decide), by decide, by decide, by decide, by decide⟩
+  ⟨gl_inv_of_check (by decide) (by decide) (by decide) (by decide) (by decide), by decide, by decide, by decide, by decide⟩
 
 end TinyVerif.Dl
